@@ -36,10 +36,78 @@ int substdio_putflush(substdio *s, const char *buf, size_t len)
  * whose read() failed, and that call never also returns data) */
 static substdio *err_pending_on = 0;
 
+/* substdio_feed / substdio_PEEK / substdio_SEEK over the ideal stream (contract of substdi.c, C20 l0_substdio_in):
+ * feed() makes 1..size unread bytes of the source available in place at s->x + s->n (s->p of them) and returns that
+ * count, 0 at end of input, -1 on a read error; HOW MANY bytes one feed delivers is the read() boundary, i.e. nothing
+ * the caller controls.  The ideal feed therefore takes the chunk size (1..IDEAL_FEED_MAX) from ideal_feed_tape[], which
+ * a harness makes symbolic in sym_inputs() (left alone it is all zeroes: one byte per feed - every position a boundary),
+ * so code that scans the buffer in place is exposed at every position of the chunk boundary. */
+#ifndef IDEAL_FEED_MAX
+#define IDEAL_FEED_MAX 4
+#endif
+#define IDEAL_FEED_TAPE 16
+unsigned char ideal_feed_tape[IDEAL_FEED_TAPE];
+unsigned int ideal_feed_i;
+static int fed_size;              /* capacity of that stream's buffer, taken when it is first fed */
+static substdio *fed_s = 0;       /* stream whose s->p counts bytes really buffered by feed (else s->p is only the ghost below) */
+
+int ideal_next(substdio *s)       /* next unread byte of the stream: what feed buffered first, then the source */
+{
+  if (fed_s == s && s->p > 0) {
+    unsigned char c = (unsigned char) s->x[s->n];
+    s->p--; s->n++;
+    if (!s->p) { s->n = fed_size; fed_s = 0; }   /* drained: the whole buffer is free again */
+    return c;
+  }
+  return ideal_getc(s);
+}
+
+void ideal_ghost(substdio *s, int c)   /* ghost of the real read buffer, see substdio_get below */
+{
+  if (fed_s != s) s->p = (c == -1) ? 0 : 1;
+}
+
+ssize_t substdio_feed(substdio *s)
+{
+  int q, i = 0, c = 0, base;
+  unsigned char t0 = 0, t1 = 0, t2 = 0, t3 = 0;
+  if (fed_s == s && s->p > 0) return s->p;
+  if (err_pending_on == s) { err_pending_on = 0; return -1; }
+  if (fed_s != s) { s->p = 0; fed_size = s->n; }  /* s->p was only the ghost; nothing is buffered, s->n is the capacity */
+  /* the chunk is always placed at the same offset (capacity - IDEAL_FEED_MAX), so that the caller's in-place pointer
+   * is a constant for the solver; the real feed places it at capacity - r, which no caller may rely on */
+  base = fed_size > 4 ? fed_size - 4 : 0;
+  q = 1 + ideal_feed_tape[ideal_feed_i % IDEAL_FEED_TAPE] % IDEAL_FEED_MAX; ++ideal_feed_i;
+  if (q > fed_size) q = fed_size;
+  if (q > 4) q = 4;
+  if (i < q && c >= 0) { c = ideal_getc(s); if (c >= 0) { t0 = (unsigned char) c; ++i; } }
+  if (i < q && c >= 0) { c = ideal_getc(s); if (c >= 0) { t1 = (unsigned char) c; ++i; } }
+  if (i < q && c >= 0) { c = ideal_getc(s); if (c >= 0) { t2 = (unsigned char) c; ++i; } }
+  if (i < q && c >= 0) { c = ideal_getc(s); if (c >= 0) { t3 = (unsigned char) c; ++i; } }
+  s->n = base; s->p = 0;
+  if (!i) { fed_s = s; return c == -2 ? -1 : 0; }
+  if (c == -2) err_pending_on = s;
+  s->p = i;
+  s->x[base] = (char) t0;
+  if (i > 1) s->x[base + 1] = (char) t1;
+  if (i > 2) s->x[base + 2] = (char) t2;
+  if (i > 3) s->x[base + 3] = (char) t3;
+  fed_s = s;
+  return i;
+}
+
+char *substdio_peek(substdio *s) { return s->x + s->n; }
+void substdio_seek(substdio *s, int len) { s->n += len; s->p -= len; }
+
 ssize_t substdio_get(substdio *s, char *buf, size_t len)
 {
   size_t n = 0;
   int c = -1;
+  if (fed_s == s && s->p > 0) {                   /* bytes buffered by feed are delivered first, as the real get does */
+    while (n < len && fed_s == s) buf[n++] = (char) ideal_next(s);
+    return (ssize_t) n;
+  }
+  if (fed_s == s) { s->n = fed_size; fed_s = 0; }
   if (err_pending_on == s) { err_pending_on = 0; return -1; }
   while (n < len) {
     c = ideal_getc(s);
@@ -61,7 +129,7 @@ ssize_t substdio_get(substdio *s, char *buf, size_t len)
 int substdio_copy(substdio *ssout, substdio *ssin)
 {
   for (;;) {
-    int c = ideal_getc(ssin);
+    int c = ideal_next(ssin);
     if (c == -2) return -2;
     if (c == -1) return 0;
     if (ideal_putc(ssout, (unsigned char) c) == -1) return -3;
